@@ -224,7 +224,16 @@ def run_shard(ctx):
         x, cls = random_series(rng, n)
         nontriv = len(set(x.tolist())) > 1
         cont = x
-        if rng.random() < 0.2:
+        if rng.random() < 0.12:
+            # narrow / unsigned integer dtypes using most of their range (products of adjacent steps overflow the dtype)
+            dt_ = [np.int8, np.int16, np.int32, np.uint8, np.uint16][int(rng.integers(5))]
+            ii = np.iinfo(dt_)
+            cont = rng.integers(ii.min // 2 if ii.min < 0 else 0, ii.max // 2, size=n).astype(dt_)
+            if rng.random() < 0.5:
+                cont = np.repeat(cont, 2)[:n]          # with plateaus
+            x = cont.astype(float)
+            cls = 'narrow-int'
+        elif rng.random() < 0.2:
             cont = x.tolist()
         elif rng.random() < 0.2 and np.all(x == np.round(x)):
             cont = x.astype(np.int64)
